@@ -48,6 +48,11 @@ func (n Number) String() string {
 		return "-Infinity"
 	}
 
+	if n == 0 {
+		// Both positive and negative zero are "0".
+		return "0"
+	}
+
 	return strconv.FormatFloat(float64(n), 'f', -1, 64)
 }
 
@@ -56,7 +61,7 @@ func (n Number) Number() float64 {
 }
 
 func (n Number) Bool() bool {
-	return n != 0
+	return n != 0 && !math.IsNaN(float64(n))
 }
 
 type String string
@@ -66,13 +71,7 @@ func (n String) String() string {
 }
 
 func (n String) Number() float64 {
-	ret, err := strconv.ParseFloat(string(n), 64)
-
-	if err != nil {
-		return math.NaN()
-	}
-
-	return ret
+	return getStringNumber(string(n))
 }
 
 func (n String) Bool() bool {
@@ -86,7 +85,16 @@ func (n NodeSet) String() string {
 		return ""
 	}
 
-	return GetCursorString(n[0])
+	// The string-value of the node that is first in document order.
+	first := n[0]
+
+	for _, i := range n[1:] {
+		if i.Pos() < first.Pos() {
+			first = i
+		}
+	}
+
+	return GetCursorString(first)
 }
 
 func (n NodeSet) Number() float64 {
@@ -97,10 +105,33 @@ func (n NodeSet) Bool() bool {
 	return len(n) > 0
 }
 
+// getStringNumber converts a string to a number as the XPath number() function
+// does: optional whitespace, an optional minus sign, a Number (Digits ('.'
+// Digits?)? | '.' Digits) and optional whitespace.  Anything else is NaN.
 func getStringNumber(str string) float64 {
+	str = strings.Trim(str, " \t\r\n")
+	digits := strings.TrimPrefix(str, "-")
+	seenDigit := false
+	seenDot := false
+
+	for _, c := range digits {
+		switch {
+		case c >= '0' && c <= '9':
+			seenDigit = true
+		case c == '.' && !seenDot:
+			seenDot = true
+		default:
+			return math.NaN()
+		}
+	}
+
+	if !seenDigit {
+		return math.NaN()
+	}
+
 	ret, err := strconv.ParseFloat(str, 64)
 
-	if err != nil {
+	if err != nil && !math.IsInf(ret, 0) {
 		return math.NaN()
 	}
 
